@@ -1292,12 +1292,14 @@ pub fn run_c19(ctx: &RunCtx) -> Vec<PartOutcome> {
         || prop::collection::vec(any::<u16>(), 80).prop_map(|seeds| SlotCase { seeds }),
         c19_slots,
     ));
+    parts.push(explore_with(ctx, "connection_slots_tcp", ctx.tier.pick(24, 300), 20, crate::checks::wirechecks::strat, crate::checks::wirechecks::c19_slots_tcp));
     parts
 }
 
 pub fn replay_c19(part: &str, input: &Value) -> Option<Result<Result<(), Viol>, String>> {
     match part {
         "connection_slots" => Some(replay_input::<SlotCase>(input, c19_slots)),
+        "connection_slots_tcp" => Some(replay_input::<crate::checks::wirechecks::WireCase>(input, crate::checks::wirechecks::c19_slots_tcp)),
         _ => replay_spec(&C19, part, input),
     }
 }
